@@ -54,11 +54,24 @@ CONSTANTS
   MaxHist,      \* length bound of generated histories
   Variant       \* "ok" or the name of a broken variant of the implementation model
 
-Objs    == 1..Len(IdSeq)
+\* TLC re-evaluates the definition that overrides a CONSTANT (X <- MCX in the configuration) at EVERY reference
+\* (measured); a constant-level definition of this module is evaluated once.  All tables are read through these.
+IdSeqT     == IdSeq
+DistT      == Dist
+IndexedT   == Indexed
+InitAtT    == InitAt
+InitFT     == InitF
+FarIdsT    == FarIds
+FarLBT     == FarLB
+PatsT      == Pats
+MoversT    == Movers
+GenShapesT == GenShapes
+
+Objs    == 1..Len(IdSeqT)
 Shapes  == 1..NShape
 Queries == 1..NQuery
-Fars    == 1..Len(FarIds)
-PatIdx  == 1..Len(Pats)
+Fars    == 1..Len(FarIdsT)
+PatIdx  == 1..Len(PatsT)
 
 Max(a, b) == IF a >= b THEN a ELSE b
 Min(a, b) == IF a <= b THEN a ELSE b
@@ -66,10 +79,14 @@ Abs(a)    == IF a >= 0 THEN a ELSE 0 - a
 Range(s)  == {s[i] : i \in 1..Len(s)}
 Tol(d)    == Max(TolAbs, d \div TolDiv)
 
-ASSUME TablesSane ==
-  /\ \A q \in Queries, s \in Shapes : Indexed[s] => Dist[q][s] >= 0
-  /\ Pats[1] = <<"*">>
-  /\ Movers \subseteq Objs /\ GenShapes \subseteq Shapes
+\* (the tables themselves are not quantified over in an ASSUME: TLC evaluates assumptions with the overriding
+\* definitions un-cached, which is quadratic in the table size; `nearby-world' guarantees Dist >= 0 for shapes
+\* with a geometry)
+ASSUME ConstantsSane ==
+  /\ PatsT[1] = <<"*">>
+  /\ MoversT \subseteq Objs /\ GenShapesT \subseteq Shapes
+  /\ Len(InitAtT) = Len(IdSeqT) /\ Len(InitFT) = Len(IdSeqT)
+  /\ OrdEps >= 0 /\ TolAbs >= 0 /\ TolDiv >= 1 /\ DefaultLimit >= 1
 
 -----------------------------------------------------------------------------
 (* Glob matching on character sequences (internal/glob Match restricted to  *)
@@ -81,17 +98,18 @@ GlobMatch(p, s) ==
   ELSE s # <<>> /\ (Head(p) = "?" \/ Head(p) = Head(s)) /\ GlobMatch(Tail(p), Tail(s))
 
 \* evaluated once: the known / far objects every pattern selects
-PatKnown == [p \in PatIdx |-> {o \in Objs : GlobMatch(Pats[p], IdSeq[o])}]
-PatFar   == [p \in PatIdx |-> {j \in Fars : GlobMatch(Pats[p], FarIds[j])}]
+\* (TLCEval: a function constructor is otherwise re-evaluated at every application)
+PatKnown == TLCEval([p \in PatIdx |-> {o \in Objs : GlobMatch(PatsT[p], IdSeqT[o])}])
+PatFar   == TLCEval([p \in PatIdx |-> {j \in Fars : GlobMatch(PatsT[p], FarIdsT[j])}])
 
 -----------------------------------------------------------------------------
 (* 1. Dataset and history.                                                  *)
 VARIABLES at,    \* at[o] : shape of object o, 0 = absent
-          fv,    \* fv[o] : value of field f of object o (kept while absent, irrelevant then)
+          fv,    \* fv[o] : value of field f of object o (0 while absent)
           hist   \* generated history
 vars == <<at, fv, hist>>
 
-InitState == at = InitAt /\ fv = InitF
+InitState == at = InitAtT /\ fv = InitFT
 
 Set(o, s, f) ==
   /\ at' = [at EXCEPT ![o] = s]
@@ -101,7 +119,7 @@ Set(o, s, f) ==
 Del(o) ==
   /\ at[o] # 0
   /\ at' = [at EXCEPT ![o] = 0]
-  /\ UNCHANGED fv
+  /\ fv' = [fv EXCEPT ![o] = 0]
   /\ hist' = Append(hist, [op |-> "del", o |-> o, s |-> 0, f |-> 0])
 
 \* the generators give the field a value that is a function of (object, shape): no extra state
@@ -109,8 +127,8 @@ FOf(o, s) == (o + s) % 2
 
 Init == InitState /\ hist = <<>>
 Next == /\ Len(hist) < MaxHist
-        /\ \/ \E o \in Movers, s \in GenShapes : Set(o, s, FOf(o, s))
-           \/ \E o \in Movers : Del(o)
+        /\ \/ \E o \in MoversT, s \in GenShapesT : Set(o, s, FOf(o, s))
+           \/ \E o \in MoversT : Del(o)
 Spec == Init /\ [][Next]_vars
 View == <<at, fv>>
 
@@ -132,7 +150,7 @@ TypeOK == /\ at \in [Objs -> 0..NShape]
 (* is a known object, o < 0 the far object -o, o = 0 an id the collection   *)
 (* never held; mm is the reported distance (-1 = none reported).            *)
 
-Present(a, o) == a[o] # 0 /\ Indexed[a[o]]
+Present(a, o) == a[o] # 0 /\ IndexedT[a[o]]
 
 \* the objects the query ranges over: present, with a geometry, passing MATCH and WHERE
 Cand(a, f, qr) == {o \in PatKnown[qr.pat] : Present(a, o) /\ (qr.wh = 0 \/ f[o] = 1)}
@@ -162,8 +180,8 @@ SeqMax(s, i, mx) == IF i > Len(s) THEN mx ELSE SeqMax(s, i + 1, Max(mx, s[i]))
 \* the reasons for which a run is NOT what C13 demands (empty = accepted)
 Defects(a, f, qr) ==
   LET cand   == Cand(a, f, qr)
-      d(o)   == Dist[qr.q][a[o]]
-      flb    == FarLB[qr.q]
+      d(o)   == DistT[qr.q][a[o]]
+      flb    == FarLBT[qr.q]
       hasr   == HasRadius(qr)
       \* with a radius: objects clearly inside / objects too close to the circle to be judged
       must   == IF hasr THEN {o \in cand : d(o) + Tol(d(o)) < qr.r} ELSE cand
@@ -176,9 +194,9 @@ Defects(a, f, qr) ==
       ids    == {items[i].o : i \in known}
       farids == {0 - items[i].o : i \in fars}
       \* the table distance of a known candidate, the lower bound of a far object, -1 for anything else
-      keys   == [i \in 1..n |-> IF items[i].o < 0 THEN flb
-                                ELSE IF items[i].o \in cand THEN d(items[i].o) ELSE 0 - 1]
-      kn     == [i \in 1..n |-> items[i].o > 0]
+      keys   == TLCEval([i \in 1..n |-> IF items[i].o < 0 THEN flb
+                                        ELSE IF items[i].o \in cand THEN d(items[i].o) ELSE 0 - 1])
+      kn     == TLCEval([i \in 1..n |-> items[i].o > 0])
       maxkey == SeqMax(keys, 1, 0 - 1)
       L      == Limit(qr)
       nmust  == Cardinality(must) + Cardinality(far)
@@ -239,7 +257,7 @@ SetMin(S) == CHOOSE m \in S : \A x \in S : m <= x
 SetMax(S) == CHOOSE m \in S : \A x \in S : m >= x
 
 NodeKey(a, q, members) ==
-  LET ds == {Dist[q][a[o]] : o \in members}
+  LET ds == {DistT[q][a[o]] : o \in members}
   IN IF Variant = "lb-inadmissible" THEN SetMax(ds) ELSE SetMin(ds)
 
 \* best-first traversal: Q is the queue (a set of entries), out the sequence of objects handed to the iterator
@@ -250,7 +268,7 @@ BestFirst(a, q, grp, Q, out) ==
        IN IF e.node = 0
           THEN BestFirst(a, q, grp, Q \ {e}, Append(out, e.o))
           ELSE BestFirst(a, q, grp,
-                         (Q \ {e}) \cup {[node |-> 0, o |-> o, key |-> Dist[q][a[o]], ord |-> 100 + o] :
+                         (Q \ {e}) \cup {[node |-> 0, o |-> o, key |-> DistT[q][a[o]], ord |-> 100 + o] :
                                            o \in {x \in Objs : Present(a, x) /\ grp[x] = e.node}},
                          out)
 
@@ -267,7 +285,7 @@ RECURSIVE Iterate(_, _, _, _, _, _, _, _, _)
 Iterate(a, f, qr, order, cursor, i, iters, cnt, items) ==
   IF i > Len(order) THEN [items |-> items, next |-> 0]
   ELSE LET o    == order[i]
-           dd   == Dist[qr.q][a[o]]
+           dd   == DistT[qr.q][a[o]]
            pass == o \in PatKnown[qr.pat] /\ (qr.wh = 0 \/ f[o] = 1)
        IN IF i <= cursor THEN Iterate(a, f, qr, order, cursor, i + 1, iters, cnt, items)
           ELSE IF HasRadius(qr) /\ dd > qr.r
@@ -296,36 +314,4 @@ ServeRun(a, f, qr, grp, cursor, maxpages, pages) ==
 Serve(a, f, qr, grp, maxpages) ==
   [qr EXCEPT !.pages = ServeRun(a, f, qr, grp, 0, maxpages, <<>>)]
 
------------------------------------------------------------------------------
-(* Design check: on every reachable dataset, for every query of a small     *)
-(* battery and every tree, the implementation model answers what the        *)
-(* statement demands.  (CONSTANTS of the battery: DesignK, DesignGroups,    *)
-(* DesignPages; radii at, just inside and just outside every table          *)
-(* distance.)                                                               *)
-CONSTANTS DesignK, DesignGroups, DesignPages
-
-DesignRadii(q) ==
-  {0 - 1, 0} \cup
-  {r \in UNION {{Dist[q][s], Dist[q][s] + Tol(Dist[q][s]) + 1, Dist[q][s] - Tol(Dist[q][s]) - 1} :
-                 s \in {x \in Shapes : Indexed[x]}} : r > 0}
-
-Blank == [q |-> 1, k |-> 0, r |-> 0 - 1, pat |-> 1, wh |-> 0, dist |-> TRUE, pages |-> <<>>]
-
-DesignQueries ==
-  UNION {{[Blank EXCEPT !.q = q, !.k = k, !.r = r, !.pat = p, !.wh = w] :
-            k \in DesignK, r \in DesignRadii(q), p \in PatIdx, w \in 0..1} : q \in Queries}
-
-DesignOK ==
-  \A grp \in [Objs -> 1..DesignGroups] :
-    \A qr \in DesignQueries :
-      \A mp \in DesignPages :
-        Accepts(at, fv, Serve(at, fv, qr, grp, mp))
-
-\* consequences stated directly (each is implied by Accepts; kept as separate, readable invariants)
-SortedReplies ==
-  \A grp \in [Objs -> 1..DesignGroups], q \in Queries :
-    LET run == Serve(at, fv, [Blank EXCEPT !.q = q, !.k = Cardinality(Objs) + 1], grp, 1)
-        it  == run.pages[1].items
-    IN /\ \A i \in 1..(Len(it) - 1) : it[i].mm <= it[i + 1].mm
-       /\ {it[i].o : i \in 1..Len(it)} = {o \in Objs : Present(at, o)}
 =============================================================================
